@@ -103,11 +103,66 @@ def clear (p : PList) : Option PList :=
   | none => none
   | some p1 => some { p1 with begin := 0, prev := set p1.prev 0 none, size := 0 }   -- _begin.item = &endItem; endItem.prev = 0; _size = 0;
 
+/-! ### `sort()` on the heap: the pointers are item addresses, `ptr->next` is a heap read, the loop ends on
+    pointer equality -/
+
+/-- `QuickSort::swap(a, b)` -/
+def swapVal (p : PList) (a b : Nat) : PList :=
+  let tmp := p.val a                                           -- T tmp = a->value;
+  let v1 := set p.val a (p.val b)                              -- a->value = b->value;
+  { p with val := set v1 b tmp }                               -- b->value = tmp;
+
+/-- result of the partition loop: heap, `ptr0`, `ptr1` -/
+structure PL where
+  heap : PList
+  p0 : Nat
+  p1 : Nat
+
+/-- the do-while loop of `QuickSort::sort`; `fuel` bounds the number of iterations (`none` = exhausted or a
+    null `next` was followed) -/
+def ploopP (lt : Int → Int → Bool) (left right : Nat) : Nat → PList → Nat → Nat → Nat → Option PL
+  | 0, _, _, _, _ => none
+  | fuel + 1, p, p0, p1, p2 =>
+    match p.next p2 with                                       -- ptr2 = ptr2->next;
+    | none => none
+    | some q2 =>
+      if lt (p.val q2) (p.val left) then                       -- if(ptr2->value < pivot)
+        match p.next p1 with                                   --   ptr0 = ptr1; ptr1 = ptr1->next;
+        | none => none
+        | some q1 =>
+          if q2 ≠ right then ploopP lt left right fuel (swapVal p q1 q2) p1 q1 q2   --   swap(ptr1, ptr2);
+          else some ⟨swapVal p q1 q2, p1, q1⟩
+      else
+        if q2 ≠ right then ploopP lt left right fuel p p0 p1 q2                     -- while(ptr2 != right);
+        else some ⟨p, p0, p1⟩
+
+/-- `QuickSort::sort(left, right)` on the heap -/
+def qsortP (lt : Int → Int → Bool) : Nat → PList → Nat → Nat → Option PList
+  | 0, _, _, _ => none
+  | f + 1, p, left, right =>
+    match ploopP lt left right (f + 1) p left left left with
+    | none => none
+    | some r =>
+      let h1 := swapVal r.heap left r.p1                       -- swap(left, ptr1);
+      match (if r.p1 ≠ right then h1.next r.p1 else some r.p1) with    -- if(ptr1 != right) ptr1 = ptr1->next;
+      | none => none
+      | some q1 =>
+        match (if left ≠ r.p0 then qsortP lt f h1 left r.p0 else some h1) with   -- if(left != ptr0) sort(left, ptr0);
+        | none => none
+        | some h2 => if q1 ≠ right then qsortP lt f h2 q1 right else some h2     -- if(ptr1 != right) sort(ptr1, right);
+
+/-- `sort()`: `if(endItem.prev == 0 || _begin.item == endItem.prev) return; QuickSort::sort(_begin.item, endItem.prev);` -/
+def sortP (lt : Int → Int → Bool) (p : PList) : Option PList :=
+  match p.prev 0 with
+  | none => some p
+  | some last => if p.begin = last then some p else qsortP lt p.size p p.begin last
+
 /-- histories of the relinking operations, iterators given as positions (as the harness does) -/
 inductive POp where
   | insert (k : Nat) (v : Int)
   | remove (k : Nat)
   | clear
+  | sort
 
 def step (p : PList) : POp → Option PList
   | .insert k v =>
@@ -123,6 +178,7 @@ def step (p : PList) : POp → Option PList
       | none => none
     else none
   | .clear => clear p
+  | .sort => sortP ltInt p
 
 def run (p : PList) : List POp → PList
   | [] => p
@@ -136,6 +192,7 @@ def stepChain (s : LState) : POp → Option LState
   | .insert k v => (s.insert k v).map (·.st)
   | .remove k => (s.remove k).map (·.st)
   | .clear => some s.clear
+  | .sort => s.sort.map (·.st)
 
 def runChain (s : LState) : List POp → LState
   | [] => s
